@@ -277,7 +277,34 @@ def gen_links(rng, decls):
             rng.shuffle(links)
     # a whole class argument as link target is outside the modelled space (Model/C15Links.v add_link: EUnmodelled)
     whole = {d["key"] for d in decls if d["kind"] in ("class", "classlist")}
-    return [l for l in links if l["tgt"] not in whole]
+    links = [l for l in links if l["tgt"] not in whole]
+    # Outside the value space of the model (finite trees, no sharing): a link that hands a group / class Namespace
+    # through by reference (identity, first, tup) in a link set with overlapping keys makes the real parser build shared
+    # or cyclic Namespaces (RecursionError, later links writing through the alias). Such link sets keep their overlap
+    # but get a function that reads the Namespace instead (gsum).
+    if not py_overlap_free(links):
+        kinds = dict(srcs)
+        for l in links:
+            if l["fn"] in (None, FN["first"], FN["tup"]) and any(kinds.get(k) == "map" for k in l["src"]):
+                l["fn"] = FN["gsum"]
+    return links
+
+
+def py_comparable(a, b):
+    return a == b or a.startswith(b + ".") or b.startswith(a + ".")
+
+
+def py_overlap_free(links):
+    """Model/C15Links.v overlap_free on the generated link list (superset of the accepted links)"""
+    for i, l in enumerate(links):
+        if any(py_comparable(l["tgt"], k) for k in l["src"]):
+            return False
+        for m in links[i + 1:]:
+            if m["tgt"] != l["tgt"] and py_comparable(m["tgt"], l["tgt"]):
+                return False
+            if any(m["tgt"] != k and py_comparable(m["tgt"], k) for k in l["src"]):
+                return False
+    return True
 
 
 def nest(pairs):
